@@ -193,7 +193,7 @@ pub fn prop() -> Prop {
         id: "C16",
         scenarios: vec![
             Scenario { name: "sweep", f: sweep, thorough_only: false,
-                bounds: "receivers: every shape of <=5 (quick) / <=7 (thorough) elements with known values + 21 larger shapes + every obscured shape of <=4 (5) elements + 70 envelopes that put junk / elided / decorated / duplicated / wrapped-node objects under each of 14 well-known predicates ('signed', 'hasRecipient', 'sskrShare', 'isA', 'attachment', 'salt', 'note', 'body', 'result', 'error', 'content', 'date', 'vendor', 'conformsTo') + salted and decorated signature / recipient / attachment assertions, obscured subjects, request / response look-alikes, decoder-only shapes x 60 operation groups (every public query, transformation, obscuring, verification and parsing entry point) x arguments drawn from the receiver's own elements and well-known values x every digest order; any panic is a violation",
+                bounds: "receivers: every shape of <=5 (quick) / <=7 (thorough) elements with known values + 30 hand-written shapes + every obscured shape of <=4 (5) elements + 70 envelopes that put junk / elided / decorated / duplicated / wrapped-node objects under each of 14 well-known predicates ('signed', 'hasRecipient', 'sskrShare', 'isA', 'attachment', 'salt', 'note', 'body', 'result', 'error', 'content', 'date', 'vendor', 'conformsTo') + salted and decorated signature / recipient / attachment assertions, obscured subjects, request / response look-alikes, decoder-only shapes x 60 operation groups (every public query, transformation, obscuring, verification and parsing entry point) x arguments drawn from the receiver's own elements and well-known values x every digest order; any panic is a violation",
                 api: &["(every public method of Envelope in src/base and src/extension, Expression/Request/Response/Event/Function::try_from, Attachments::try_from_envelope)"] },
         ],
         assumptions: { let mut v = COMMON_ASSUMPTIONS.to_vec(); v.push("builder shortcuts documented to panic on misuse (add_assertions with a non-assertion argument, Response::with_result on a failure) are called only with valid arguments"); v },
